@@ -171,8 +171,17 @@ def gen_hashable(rng):
     return {"t": "sym", "v": rng.choice(SYMS)}
 
 
+EXOTIC = ["range", "range3", "slice", "frac", "bytearray", "frozenset", "deque", "odict", "counter", "ddict", "chainmap",
+          "dkeys", "dvalues", "ditems", "date", "datetime", "time", "namedtuple", "pattern", "match", "complex", "mcomplex",
+          "mfloatnan", "mfloatinf", "fstring", "bstring", "mbytes", "nan", "ellipsis", "type", "fn"]
+
+
 def gen_value(rng, depth, nmut, boxes=True):
     r = rng.random()
+    if depth > 0 and r < 0.12:
+        k = rng.choice(EXOTIC)
+        kids = [gen_value(rng, depth - 1, nmut, boxes=False) for _ in range(rng.randint(0, 2))]
+        return {"t": "exotic", "k": k, "kids": kids, "n": rng.randrange(1, 9)}
     if depth <= 0 or r < 0.35:
         if nmut and rng.random() < 0.25:
             return {"t": "ref", "up": rng.randrange(1, nmut + 1)}
@@ -278,12 +287,95 @@ def build(spec, anc=None):
         for _ in range(spec["n"]):
             l = [l]
         return l
+    if t == "exotic":
+        return build_exotic(spec, [build(s, anc) for s in spec["kids"]])
     items = [build(s, anc) for s in spec["items"]]
     if t == "tuple":
         return tuple(items)
     if t == "set":
         return set(items)
     return {"mlist": M.List, "mtuple": M.Tuple, "mset": M.Set, "mexpr": M.Expression, "mdict": M.Dict}[t](items)
+
+
+def _hashable(v):
+    try:
+        hash(v)
+        return True
+    except TypeError:
+        return False
+
+
+def build_exotic(spec, kids):
+    import collections
+    import datetime
+    import fractions
+    import re
+    hy = _S["hy"]
+    M = hy.models
+    k, n = spec["k"], spec["n"]
+    hk = [v for v in kids if _hashable(v)]
+    if k == "range":
+        return range(n)
+    if k == "range3":
+        return range(1, n + 5, 2)
+    if k == "slice":
+        return slice(None, n, None) if n % 2 else slice(1, n, 2)
+    if k == "frac":
+        return fractions.Fraction(n, 7)
+    if k == "bytearray":
+        return bytearray(b"ab" * (n % 3))
+    if k == "frozenset":
+        return frozenset(hk[:1])
+    if k == "deque":
+        return collections.deque(kids)
+    if k == "odict":
+        return collections.OrderedDict((i, v) for i, v in enumerate(kids))
+    if k == "counter":
+        return collections.Counter({"a": n})
+    if k == "ddict":
+        d = collections.defaultdict(list)
+        for i, v in enumerate(kids):
+            d[i] = v
+        return d
+    if k == "chainmap":
+        return collections.ChainMap({"k": kids[0] if kids else n}, {"j": n})
+    if k in ("dkeys", "dvalues", "ditems"):
+        d = {i: v for i, v in enumerate(kids)}
+        return {"dkeys": d.keys, "dvalues": d.values, "ditems": d.items}[k]()
+    if k == "date":
+        return datetime.date(2000 + n, 1 + n % 12, 1 + n)
+    if k == "datetime":
+        return datetime.datetime(2000 + n, 1 + n % 12, 1 + n, n, 5, 0, n * 1000 if n % 2 else 0)
+    if k == "time":
+        return datetime.time(n, 7, 9, fold=n % 2)
+    if k == "namedtuple":
+        NT = collections.namedtuple("NT", ["a", "b"])
+        return NT(kids[0] if kids else n, n)
+    if k == "pattern":
+        return re.compile("a+b" * (n % 2 + 1), re.I if n % 2 else 0)
+    if k == "match":
+        return re.match("a+", "aaab")
+    if k == "complex":
+        return complex(n, -n)
+    if k == "mcomplex":
+        return M.Complex(complex(0, n))
+    if k == "mfloatnan":
+        return M.Float(float("nan"))
+    if k == "mfloatinf":
+        return M.Float(float("-inf"))
+    if k == "nan":
+        return float("nan")
+    if k == "fstring":
+        return M.FString([M.String("a{b"), M.FComponent([M.Symbol("x"), M.String(">3")], conversion="r")])
+    if k == "bstring":
+        return M.String("br]acket", brackets="x")
+    if k == "mbytes":
+        return M.Bytes(b"by\"tes")
+    if k == "ellipsis":
+        return Ellipsis
+    if k == "type":
+        return int
+    return len
 
 
 # ------------------------------------------------------------------ independent reference printer
@@ -382,6 +474,8 @@ def ref_repr(spec, q=False, anc=None):
             anc.pop()
     if t == "deep":
         raise RecursionError()
+    if t == "exotic":
+        raise Unsupported()
     items = [ref_repr(s, q, anc) for s in spec["items"]]
     if t in ("tuple", "mtuple"):
         return pre + "#(" + " ".join(items) + ")"
@@ -411,6 +505,8 @@ def _ref_bytes(b):
 
 def shape(spec, d=2):
     t = spec["t"]
+    if t == "exotic":
+        return "x:" + spec["k"]
     if d == 0 or t not in ("list", "tuple", "dict", "set", "mlist", "mtuple", "mset", "mexpr", "mdict", "box"):
         return t
     if t == "dict":
@@ -461,6 +557,8 @@ def generate(rng, tier):
 
 
 def _has_raise(spec):
+    if spec["t"] == "exotic":
+        return any(_has_raise(s) for s in spec["kids"])
     if spec["t"] == "box":
         return "raise_at" in spec["plan"] or any(_has_raise(s) for s in spec["kids"])
     if spec["t"] == "dict":
@@ -475,7 +573,11 @@ def _call(fn, hy_repr_code, spec, k, exc):
     """One hy.repr call under the crash-point tracer. Returns (outcome, N, fired)."""
     CTX.repr = fn
     value = build(spec)
-    tr = CrashTracer(lambda code: code is not hy_repr_code, k=k, exc=exc or "fault")
+    # eligible = frames of printers proper: hy's built-in printers (same file as hy-repr, never hy-repr itself) and the
+    # simulator's Box printers; frames of the standard library below them are excluded, because their line counts
+    # depend on caches warmed by earlier calls (enum pseudo-members, re cache), which would make k land elsewhere
+    files = (hy_repr_code.co_filename, __file__)
+    tr = CrashTracer(lambda code: code is not hy_repr_code and code.co_filename in files, k=k, exc=exc or "fault")
     try:
         if spec["t"] == "deep":
             text = fn(value)  # untraced: the fault here is the RecursionError itself
@@ -592,6 +694,8 @@ def execute(desc):
 def _has_ref(spec):
     if spec["t"] == "ref":
         return True
+    if spec["t"] == "exotic":
+        return any(_has_ref(s) for s in spec["kids"])
     if spec["t"] == "dict":
         return any(_has_ref(v) for _, v in spec["items"])
     if spec["t"] == "box":
@@ -631,6 +735,10 @@ def _simpler_values(spec):
         for i, s in enumerate(kids):
             for s2 in _simpler_values(s):
                 yield dict(spec, kids=kids[:i] + [s2] + kids[i + 1:])
+    elif t == "exotic":
+        for i in range(len(spec["kids"])):
+            yield dict(spec, kids=spec["kids"][:i] + spec["kids"][i + 1:])
+        yield {"t": "int", "v": 1}
     elif t not in ("int", "ref", "deep"):
         yield {"t": "int", "v": 1}
 
